@@ -157,11 +157,12 @@ example : ((parseRProgram .module decoToks).map fun m => rangesOk decoSrc m.tree
     * a SMALL statement (`SmallStatement`: expression statement, assignment, `pass`, `del`, `return`, `raise`, `import`,
       `global`, `assert`, `type` …) is ranged EXACTLY by the tokens it consumed: from the start of the first to the end
       of the last one;
-    * a COMPOUND statement starts at the start of a token `j` of its own (its first token, or the `def` / `class` /
-      `async` behind its decorators — never in front of `ts`) and ends at the END OF A TOKEN IT CONSUMED, `k`: the
-      derived end `body.last().unwrap().end()` (the end of its last statement — the tokens behind it that the
+    * a COMPOUND statement starts at the start of a token `j` of its own — its FIRST token unless it is decorated (then
+      the `def` / `class` / `async` behind its decorators) — and ends at the END OF A TOKEN IT CONSUMED, `k`, which is
+      the DERIVED end of the grammar action (`derivedEnd`): the end of the last statement of its last non-empty block
+      (`finalbody`, else `orelse`, else the last handler / the last case / `body`) — the tokens behind it that the
       statement also consumed, a closing `;`, the NEWLINE, DEDENTs, are outside: listed finding
-      `compound-end-excludes-trailing-semicolon`);
+      `compound-end-excludes-trailing-semicolon`;
     * a statement line / suite / block ends (`lastEnd`) at the end of a token it consumed, and so do the handler list
       and the case list of `try` / `match`.
     With `rangesOk_slice` this fixes the text a slice by the range yields: the statement's tokens and the gaps between
@@ -171,7 +172,8 @@ theorem parseRProgram_extent {src : List Nat} {σ : SpanTab} {N : Nat} (T : Tile
     (∀ s rest, parseRSmall σ fuel ts = some (s, rest) →
       rest.length < ts.length ∧ s.range = (S σ ts.length, E σ (rest.length + 1))) ∧
     (∀ s rest, parseRCompound σ fuel ts = some (s, rest) →
-      rest.length < ts.length ∧ ∃ j k, rest.length + 1 ≤ k ∧ k ≤ j ∧ j ≤ ts.length ∧ s.range = (S σ j, E σ k)) ∧
+      rest.length < ts.length ∧ ∃ j k, rest.length + 1 ≤ k ∧ k ≤ j ∧ j ≤ ts.length ∧ s.range = (S σ j, E σ k) ∧
+        ((∀ r, ts ≠ .op .at :: r) → j = ts.length) ∧ derivedEnd s = some s.range.2) ∧
     (∀ ss rest, parseRSimpleLine σ fuel ts = some (ss, rest) →
       ∃ k, rest.length + 1 ≤ k ∧ k ≤ ts.length ∧ lastEnd ss = E σ k) ∧
     (∀ ss rest, parseRSuite σ fuel ts = some (ss, rest) →
@@ -185,8 +187,8 @@ theorem parseRProgram_extent {src : List Nat} {σ : SpanTab} {N : Nat} (T : Tile
     fun cs rest h => ?_⟩
   · obtain ⟨g1, _, g3⟩ := small_sound T fuel ts s rest hN h
     exact ⟨g1, g3⟩
-  · obtain ⟨g1, j, k, g2, g3, g4, g5, _⟩ := C.compound ts s rest hN h
-    exact ⟨g1, j, k, g2, g3, g4, g5⟩
+  · obtain ⟨g1, j, k, g2, g3, g4, g5, _, g7, g8⟩ := C.compound ts s rest hN h
+    exact ⟨g1, j, k, g2, g3, g4, g5, g7, g8⟩
   · obtain ⟨_, _, k, g2, g3, g4, _⟩ := simpleLine_sound T fuel ts ss rest hN h
     exact ⟨k, g2, g3, g4⟩
   · obtain ⟨_, _, k, g2, g3, g4, _⟩ := C.suite ts ss rest hN h
